@@ -368,6 +368,7 @@ class PropCheck:
     preds = ()           # tuple of (coq_pred_name, kind) with kind in {'agree','ok'}
     chunk = 300
     trusted = ()         # extra trusted-base strings
+    build_targets = ()   # extra .vo targets the case files import (beyond what Properties/<id>.v depends on)
     rule = ''
     design_ref = ''
 
@@ -529,8 +530,11 @@ def run_check(cls, argv=None):
     # ---- 1. proof step
     if args.skip_proof:
         proof = dict(obligations=0, discharged=0, theorems=[], axioms={}, errors=[], forbidden=[], wall_s=0)
+        rc_b, out_b = coq_build(['Base/Harness.vo'] + list(chk.build_targets))
+        if rc_b != 0:
+            log('[%s] build of case-file dependencies failed:\n%s' % (pid, out_b[-2000:]))
     else:
-        proof = proof_step(pid, gen=chk.gen_translated, log=log)
+        proof = proof_step(pid, gen=chk.gen_translated, log=log, extra_targets=chk.build_targets)
     log('[%s] proof step: %d/%d theorems re-checked in %.1fs' % (pid, proof['discharged'], proof['obligations'], proof['wall_s']))
     for e in proof['errors']:
         log('[%s] PROOF ERROR: %s' % (pid, e))
